@@ -59,6 +59,8 @@ type Ctx struct {
 	VerifDir string
 	Prog     *Program
 	Start    time.Time
+	// NoDefaultModeTwin: the driver already runs its members without --extra-imports itself (C01, C16)
+	NoDefaultModeTwin bool
 
 	obligations []Obligation
 	oblSeen     map[string]bool
